@@ -220,6 +220,19 @@ fn families(thorough: bool) -> Vec<(String, String)> {
     ] {
         v.push((name.to_string(), text.to_string()));
     }
+    // names of half a megabyte and a megabyte in every place a name can stand
+    for n in [400_000usize, 1_000_000] {
+        let nm = "a".repeat(n);
+        v.push((format!("macro parameter name of {} characters", n), format!("macro m({}) -> inc {} <-\nstart:\nm(ax)\n", nm, nm)));
+        if n < 1_000_000 {
+            continue;
+        }
+        v.push((format!("macro name of {} characters", n), format!("macro {}(p) -> inc p <-\nstart:\n{}(ax)\n", nm, nm)));
+        v.push((format!("macro argument of {} characters", n), format!("macro m(p) -> jmp p <-\nstart:\nm({})\n{}:\n", nm, nm)));
+        v.push((format!("label of {} characters", n), format!("start:\njmp {}\n{}:\nhlt\n", nm, nm)));
+        v.push((format!("procedure name of {} characters", n), format!("def {} {{\ninc ax\n}}\nstart:\ncall {}\n", nm, nm)));
+        v.push((format!("data label of {} characters", n), format!("{}: db 5\nstart:\nmov al, byte {}\nmov bx, offset {}\n", nm, nm, nm)));
+    }
     for ch in ["a", ";", "\"", "\n", " ", "(", "[", "0", ":", "\u{e9}"] {
         v.push((format!("1 MB of {:?}", ch), ch.repeat((1 << 20) / ch.len())));
     }
